@@ -91,6 +91,11 @@ def _leaf_fact(t):
     return None
 
 
+def _resolved(fi, e, at):
+    from .common import resolve_arg
+    return resolve_arg(fi, e, at) if isinstance(e, ast.Name) else e
+
+
 def r1(ctx):
     """edge cut: with every out-edge removed on which a leaf test establishes `R is root or lies beneath root + separator`,
     the return of R must be unreachable - whatever boolean structure (and / or / not, nested ifs, early raise) combines the tests"""
